@@ -22,6 +22,7 @@ import (
 	"sort"
 	"strings"
 	"sync"
+	"syscall"
 	"testing"
 	"testing/synctest"
 	"time"
@@ -153,6 +154,21 @@ func (c *v14Fake) LocalAddr() net.Addr                { return c.local }
 func (c *v14Fake) SetDeadline(_ time.Time) error      { return nil }
 func (c *v14Fake) SetReadDeadline(_ time.Time) error  { return nil }
 func (c *v14Fake) SetWriteDeadline(_ time.Time) error { return nil }
+
+// v14FakeUDP is the same recording socket, but "UDP-like" (SyscallConn / SetReadBuffer / SetWriteBuffer):
+// the package then wraps it in its UDP variant (obfsPacketConnUDP), as it does for a real *net.UDPConn.
+type v14FakeUDP struct{ *v14Fake }
+
+func (v14FakeUDP) SyscallConn() (syscall.RawConn, error) { return nil, errors.ErrUnsupported }
+func (v14FakeUDP) SetReadBuffer(int) error               { return nil }
+func (v14FakeUDP) SetWriteBuffer(int) error              { return nil }
+
+func v14Inner(f *v14Fake, udpLike bool) net.PacketConn {
+	if udpLike {
+		return v14FakeUDP{f}
+	}
+	return f
+}
 
 func v14Bytes(n int, seed uint32) []byte {
 	b := make([]byte, n)
@@ -349,6 +365,10 @@ func TestVerifC14_Send(t *testing.T) {
 	defer st.Flush()
 	seenChunks := map[int]int{}
 	defer func() { st.Extra("observed_chunk_counts", fmt.Sprint(seenChunks)) }()
+	if w, err := WrapPacketConnSalamander(v14FakeUDP{&v14Fake{}}, []byte("probe-key")); err == nil {
+		_, isUDP := w.(*obfsPacketConnUDP)
+		st.Extra("udp_like_fake_selects_udp_variant", isUDP)
+	}
 	rapid.Check(t, func(rt *rapid.T) {
 		key := v14Bytes(rapid.IntRange(4, 40).Draw(rt, "pwLen"), rapid.Uint32().Draw(rt, "pwSeed"))
 		nl := rapid.IntRange(1, 4).Draw(rt, "nLens")
@@ -364,8 +384,9 @@ func TestVerifC14_Send(t *testing.T) {
 		}
 		lo, hi := cfg.effective()
 		oneSided := (cfg.min == 0) != (cfg.max == 0)
+		udpLike := rapid.Bool().Draw(rt, "udpLikeInner") // plain PacketConn or the UDP variant of the wrapper underneath
 		fake := &v14Fake{local: &net.UDPAddr{IP: net.IPv4(10, 14, 0, 1), Port: 1}}
-		g, err := WrapPacketConnGecko(fake, GeckoOptions{Password: key, MinPacketSize: cfg.min, MaxPacketSize: cfg.max})
+		g, err := WrapPacketConnGecko(v14Inner(fake, udpLike), GeckoOptions{Password: key, MinPacketSize: cfg.min, MaxPacketSize: cfg.max})
 		if err != nil {
 			if cfg.valid() {
 				rt.Fatalf("C14 send: valid options min=%d max=%d (effective [%d,%d]) refused: %v", cfg.min, cfg.max, lo, hi, err)
@@ -400,11 +421,16 @@ func TestVerifC14_Send(t *testing.T) {
 			if oneSided {
 				cl = append(cl, "one-sided-options")
 			}
+			if udpLike {
+				cl = append(cl, "udp-like-inner")
+			} else {
+				cl = append(cl, "plain-inner")
+			}
 			if fits == 0 {
 				cl = append(cl, "nothing-fits")
 			}
-			st.Case(longs > 0 && fits > 0, fmt.Sprintf("%v/%d/%d", lens, lo, hi), cl, func() string {
-				return fmt.Sprintf("lens=%v min=%d max=%d writes=%d (long %d, short %d) chunk-count histogram=%v first=%v", lens, lo, hi, nw, longs, shorts, counts, obs)
+			st.Case(longs > 0 && fits > 0, fmt.Sprintf("%v/%d/%d/%v", lens, lo, hi, udpLike), cl, func() string {
+				return fmt.Sprintf("udpLikeInner=%v lens=%v min=%d max=%d writes=%d (long %d, short %d) chunk-count histogram=%v first=%v", udpLike, lens, lo, hi, nw, longs, shorts, counts, obs)
 			})
 		}()
 		for w := 0; w < nw; w++ {
@@ -448,7 +474,7 @@ func TestVerifC14_Send(t *testing.T) {
 				for i := range d {
 					sz[i] = len(d[i].data)
 				}
-				rt.Fatalf("C14 send: packet of %d bytes, min=%d max=%d, write #%d, wire sizes %v: %v", len(keep), lo, hi, w, sz, cerr)
+				rt.Fatalf("C14 send: packet of %d bytes, min=%d max=%d, inner socket udp-like=%v, write #%d, wire sizes %v: %v", len(keep), lo, hi, udpLike, w, sz, cerr)
 			}
 		}
 		if lo > hi {
@@ -477,6 +503,7 @@ type v14Entry struct {
 	first   time.Time
 	order   []int
 	foreign bool
+	tainted bool // a well-formed frame with the same (source, id) but another chunk count arrived: what happens to the entry is the implementation's policy
 }
 
 type v14Key struct {
@@ -502,8 +529,8 @@ type v14Model struct {
 	padSeed  uint32
 
 	// events for NT / classes
-	evCap, evExpire, evEvict, evComplete, evNTOrder, evDup, evIll, evShort, evReuse, evCollision, evLateDup int
-	capped                                                                                                  map[int]bool
+	evCap, evExpire, evEvict, evComplete, evNTOrder, evDup, evIll, evShort, evReuse, evCollision, evLateDup, evConflict int
+	capped                                                                                                              map[int]bool
 	// the same counters frozen before the fixed final phase (forget everything, lock-out probe)
 	snapped                                      bool
 	mainCap, mainExpire, mainEvict, mainComplete int
@@ -700,6 +727,26 @@ func (md *v14Model) deliver(m *v14Msg, j int, padLen int, all []*v14Msg) {
 			return
 		}
 		md.addEntry(k, &v14Entry{m: m, got: 1 << j, n: 1, first: now, order: []int{j}})
+	case e.tainted:
+		// only safety from here on: nothing but the exact message may come out, the table stays consistent (checked by the caller)
+		if out != nil {
+			if !bytes.Equal(out.data, m.full) || out.addr != md.addrStr[m.src] {
+				md.failf("message #%d (s%d id %d), whose entry had been hit by a frame with another chunk count, was returned as %s", m.seq, m.src, m.id, md.describe(out, all))
+				return
+			}
+			m.returns++
+			md.evComplete++
+			md.delEntry(k)
+			md.log("=>m%d", m.seq)
+			return
+		}
+		if e.got&(1<<j) == 0 {
+			e.got |= 1 << j
+			e.n++
+		}
+		if !has {
+			md.delEntry(k)
+		}
 	case e.got&(1<<j) != 0:
 		md.evDup++
 		if out != nil {
@@ -739,6 +786,39 @@ func (md *v14Model) deliver(m *v14Msg, j int, padLen int, all []*v14Msg) {
 		}
 		md.delEntry(k)
 		md.log("=>m%d", m.seq)
+	}
+}
+
+// conflict sends a frame for the pending entry k that announces another chunk count (a wrapped id, or an
+// attacker). The statement does not say what happens to the pending message, so the model follows the
+// table for that; no packet may come out of it, and the caller checks the invariants (caps, perSource == census, key set).
+func (md *v14Model) conflict(k v14Key, total, idx int, body []byte, all []*v14Msg) {
+	e := md.entries[k]
+	if e == nil {
+		return
+	}
+	if total == len(e.m.chunks) {
+		total = 2 + (total-1)%7 // another value in 2..8
+	}
+	out := md.feed(k.src, v14EncodeRaw(0x80, k.id, idx, total, 0, nil, body))
+	md.evConflict++
+	md.log("s%d:conflict(m%d#%d as %d/%d)", k.src, e.m.seq, k.id, idx, total)
+	if md.fail != "" {
+		return
+	}
+	if out != nil {
+		md.failf("a frame announcing %d chunks (index %d) for the pending %d-chunk message #%d made ReadFrom return %s", total, idx, len(e.m.chunks), e.m.seq, md.describe(out, all))
+		return
+	}
+	if idx < total {
+		e.tainted = true
+	}
+	if !v14TableHas(md.g, md.addrStr[k.src], k.id) {
+		if idx >= total {
+			md.failf("an ill-formed frame (index %d >= count %d) removed the pending message #%d", idx, total, e.m.seq)
+			return
+		}
+		md.delEntry(k)
 	}
 }
 
@@ -941,14 +1021,15 @@ const (
 	v14OpShort
 	v14OpAdvance
 	v14OpFlood
+	v14OpConflict
 )
 
-var v14OpNames = []string{"new", "deliver", "dup", "complete", "ill", "short", "advance", "flood"}
+var v14OpNames = []string{"new", "deliver", "dup", "complete", "ill", "short", "advance", "flood", "xconflict"}
 
 var v14Advances = []time.Duration{time.Millisecond, time.Second, 3999 * time.Millisecond, 4 * time.Second, 4001 * time.Millisecond, 7999 * time.Millisecond, 8 * time.Second, 8001 * time.Millisecond, 11999 * time.Millisecond, 12 * time.Second, 12001 * time.Millisecond, 20 * time.Second}
 
 func v14GenOp(t *rapid.T) v14Op {
-	kind := rapid.SampledFrom([]int{v14OpNew, v14OpNew, v14OpNew, v14OpDeliver, v14OpDeliver, v14OpDeliver, v14OpDeliver, v14OpDeliver, v14OpDeliver, v14OpDeliver, v14OpDup, v14OpDup, v14OpComplete, v14OpComplete, v14OpIll, v14OpIll, v14OpShort, v14OpAdvance, v14OpAdvance, v14OpFlood}).Draw(t, "op")
+	kind := rapid.SampledFrom([]int{v14OpNew, v14OpNew, v14OpNew, v14OpDeliver, v14OpDeliver, v14OpDeliver, v14OpDeliver, v14OpDeliver, v14OpDeliver, v14OpDeliver, v14OpDup, v14OpDup, v14OpComplete, v14OpComplete, v14OpIll, v14OpIll, v14OpShort, v14OpAdvance, v14OpAdvance, v14OpFlood, v14OpConflict, v14OpConflict}).Draw(t, "op")
 	op := v14Op{kind: kind}
 	small := rapid.IntRange(0, 1<<16)
 	switch kind {
@@ -971,6 +1052,10 @@ func v14GenOp(t *rapid.T) v14Op {
 		op.a = rapid.IntRange(0, len(v14Advances)-1).Draw(t, "dur")
 	case v14OpFlood:
 		op.a, op.n, op.b = small.Draw(t, "src"), rapid.IntRange(1, 12).Draw(t, "count"), small.Draw(t, "idFrom")
+	case v14OpConflict:
+		// same source and id as a pending message, another chunk count (larger or smaller), index inside / outside either count
+		op.a, op.k, op.c, op.n = small.Draw(t, "pending"), rapid.IntRange(2, 8).Draw(t, "otherCount"), rapid.IntRange(0, 15).Draw(t, "index"), rapid.IntRange(0, 30).Draw(t, "len")
+		op.seed = rapid.Uint32().Draw(t, "seed")
 	}
 	return op
 }
@@ -1116,6 +1201,19 @@ func v14RunRecv(c v14RecvCase) (md *v14Model, all []*v14Msg) {
 			md.short(src, p, all)
 		case v14OpAdvance:
 			md.advance(v14Advances[op.a])
+		case v14OpConflict:
+			var pend []v14Key // pending entries in creation order of their messages (deterministic)
+			for _, m := range all {
+				if e := md.entries[v14Key{m.src, m.id}]; e != nil && e.m == m {
+					pend = append(pend, v14Key{m.src, m.id})
+				}
+			}
+			if len(pend) == 0 {
+				continue
+			}
+			k := pend[op.a%len(pend)]
+			src = k.src
+			md.conflict(k, op.k, op.c, v14Bytes(op.n, op.seed), all)
 		case v14OpFlood:
 			for i := 0; i < op.n && md.fail == ""; i++ {
 				id, ok := freeID(src, op.b+i, all256)
@@ -1190,6 +1288,7 @@ func TestVerifC14_Receive(t *testing.T) {
 		add(md.evIll, "ill-formed")
 		add(md.evShort, "short-header")
 		add(md.evReuse, "id-reused")
+		add(md.evConflict, "conflicting-chunk-count")
 		switch {
 		case md.steps <= 20:
 			cl = append(cl, "frames<=20")
@@ -1238,6 +1337,8 @@ func TestVerifC14_GlobalCap(t *testing.T) {
 		overflow := rapid.OneOf(rapid.IntRange(0, 40), rapid.IntRange(0, 700)).Draw(rt, "overflow")
 		tailGap := rapid.SampledFrom([]int{0, 1, 1000, 3000}).Draw(rt, "tailGapMs")
 		lateSrc := rapid.IntRange(0, nsrc-1).Draw(rt, "lateSrc")
+		nConflict := rapid.IntRange(0, 24).Draw(rt, "conflicts")
+		conflictSeed := rapid.IntRange(0, 1<<20).Draw(rt, "conflictSeed")
 
 		var md *v14Model
 		var trackedMsgs []*v14Msg
@@ -1307,6 +1408,17 @@ func TestVerifC14_GlobalCap(t *testing.T) {
 			md.traceOff = false
 			md.log("[filled: table=%d]", len(md.entries))
 			md.traceOff = true
+			// frames that announce another chunk count for pending messages (first id of some sources, tracked ones)
+			for i := 0; i < nConflict && md.fail == ""; i++ {
+				k := v14Key{(lateSrc + 37*i) % nsrc, 0}
+				if i%5 == 4 && len(trackedMsgs) > 0 {
+					m := trackedMsgs[i%len(trackedMsgs)]
+					k = v14Key{m.src, m.id}
+				}
+				md.conflict(k, 2+(conflictSeed+i)%7, (conflictSeed>>3+i)%10, v14Bytes(i%9, uint32(conflictSeed+i)), all)
+				md.checkQuick(k.src)
+			}
+			md.checkFull()
 			// overflow: new first chunks from sources with room (fresh sources nsrc+4..nsrc+7 and round robin)
 			for i := 0; i < overflow && md.fail == ""; i++ {
 				src := nsrc + 4 + i%4
@@ -1419,6 +1531,7 @@ func TestVerifC14_RoundTrip(t *testing.T) {
 		ndup := rapid.IntRange(0, 3).Draw(rt, "dups") // per sender, so pending + stale stays <= 8 per source
 		dupPick := rapid.SliceOfN(rapid.IntRange(0, 1<<20), 3*nS, 3*nS).Draw(rt, "dupPick")
 		shuffle := rapid.SliceOfN(rapid.IntRange(0, 1<<20), 200, 200).Draw(rt, "shuffle")
+		udpS, udpR := rapid.Bool().Draw(rt, "udpLikeSenders"), rapid.Bool().Draw(rt, "udpLikeReceiver")
 		mode := rapid.SampledFrom([]int{0, 0, 0, 0, 1, 2}).Draw(rt, "order") // 0 any permutation, 1 reversed, 2 as sent
 
 		type dg struct {
@@ -1431,7 +1544,7 @@ func TestVerifC14_RoundTrip(t *testing.T) {
 		var chunkHist []int
 		synctest.Test(t, func(*testing.T) {
 			recvFake := &v14Fake{local: &net.UDPAddr{IP: net.IPv4(10, 14, 9, 9), Port: 443}}
-			R, err := WrapPacketConnGecko(recvFake, GeckoOptions{Password: key})
+			R, err := WrapPacketConnGecko(v14Inner(recvFake, udpR), GeckoOptions{Password: key})
 			if err != nil {
 				fail = fmt.Sprintf("receiver refused: %v", err)
 				return
@@ -1448,7 +1561,7 @@ func TestVerifC14_RoundTrip(t *testing.T) {
 			var msgs []*sent
 			for s := 0; s < nS; s++ {
 				f := &v14Fake{local: &net.UDPAddr{IP: net.IPv4(10, 14, 1, byte(1+s/2)), Port: 5000 + s%2}}
-				G, err := WrapPacketConnGecko(f, GeckoOptions{Password: key, MinPacketSize: cfgs[s].min, MaxPacketSize: cfgs[s].max})
+				G, err := WrapPacketConnGecko(v14Inner(f, udpS), GeckoOptions{Password: key, MinPacketSize: cfgs[s].min, MaxPacketSize: cfgs[s].max})
 				if err != nil {
 					fail = fmt.Sprintf("sender options %+v refused: %v", cfgs[s], err)
 					return
@@ -1498,7 +1611,7 @@ func TestVerifC14_RoundTrip(t *testing.T) {
 				msgs[d.m].count[d.j]++
 				order = append(order, fmt.Sprintf("s%d.m%d.%d", d.s, d.m, d.j))
 			}
-			desc = fmt.Sprintf("senders=%d cfgs=%v chunk counts=%v arrival=%v", nS, cfgs, chunkHist, order)
+			desc = fmt.Sprintf("senders=%d (udp-like inner: senders %v, receiver %v) cfgs=%v chunk counts=%v arrival=%v", nS, udpS, udpR, cfgs, chunkHist, order)
 			nt = nS >= 2 && mode == 0 && len(chunkHist) >= 2
 			buf := make([]byte, 2048)
 			for guard := 0; guard < 10000; guard++ {
@@ -1587,13 +1700,13 @@ func TestVerifC14_IDWrap(t *testing.T) {
 		synctest.Test(t, func(*testing.T) {
 			rf := &v14Fake{local: &net.UDPAddr{IP: net.IPv4(10, 14, 9, 9), Port: 443}}
 			sf := &v14Fake{local: &net.UDPAddr{IP: net.IPv4(10, 14, 1, 1), Port: 5000}}
-			R, err := WrapPacketConnGecko(rf, GeckoOptions{Password: key})
+			R, err := WrapPacketConnGecko(v14Inner(rf, seed&1 == 1), GeckoOptions{Password: key})
 			if err != nil {
 				fail = err.Error()
 				return
 			}
 			defer R.Close()
-			S, err := WrapPacketConnGecko(sf, GeckoOptions{Password: key, MinPacketSize: 20, MaxPacketSize: 90})
+			S, err := WrapPacketConnGecko(v14Inner(sf, seed&2 == 2), GeckoOptions{Password: key, MinPacketSize: 20, MaxPacketSize: 90})
 			if err != nil {
 				fail = err.Error()
 				return
